@@ -58,6 +58,13 @@ g := func(...v) { v[0] = 9; return v }
 const h = func(z) { return z + 1 }
 lst := [x, y]
 return [f(5, 0), g(...lst), lst, h(y), globals() == undefined]`,
+	// 10: one VM is aborted while a pooled child VM runs its callback; the
+	// other VM on the same Bytecode uses the pool afterwards
+	`param a
+if a > 0 {
+	return callback(func(x) { abortvm(); for i := 0; i < 50; i++ { }; return x }, a)
+}
+return [callback(func(x) { return x + 1 }, a), callback(func(x) { return x * 2 }, a)]`,
 }
 
 func verifC08Modules() *ModuleMap {
@@ -85,7 +92,10 @@ return {thrower: func(x) {
 }
 
 func verifC08Globals() Map {
-	return Map{"callback": &Function{Name: "callback", ValueEx: func(c Call) (Object, error) {
+	return Map{"abortvm": &Function{Name: "abortvm", ValueEx: func(c Call) (Object, error) {
+		c.VM().Abort()
+		return Undefined, nil
+	}}, "callback": &Function{Name: "callback", ValueEx: func(c Call) (Object, error) {
 		if c.Len() != 2 {
 			return nil, ErrWrongNumArguments.NewError("want=2")
 		}
@@ -122,7 +132,7 @@ func verifC08Same(x, y verifC08Out) bool {
 // is race free and equivalent to the solo runs; each run returns what it
 // returns alone on a freshly compiled Bytecode.
 func VerifC08Shared() {
-	src := "global callback; " + verifC08Progs[verifrt.Param("prog")]
+	src := "global (callback, abortvm); " + verifC08Progs[verifrt.Param("prog")]
 	mm := verifC08Modules()
 	opts := CompilerOptions{ModuleMap: mm, NoOptimize: verifrt.Param("opt") == 0}
 	shared, err := Compile([]byte(src), opts)
